@@ -391,11 +391,15 @@ func (m *{{ .Name }}) Filter(fn filter{{ .CapitalizedName }}Func) {
 	m.mx.Lock()
 	defer m.mx.Unlock()
 
+	kept := m.order[:0:0]
 	for _, k := range m.order {
-		if !fn(k, m.data[k]) {
-			m.delete(k)
+		if fn(k, m.data[k]) {
+			kept = append(kept, k)
+		} else {
+			delete(m.data, k)
 		}
 	}
+	m.order = kept
 }
 
 type filter{{ .CapitalizedName }}Func = func(k {{ .KeyType }}, v {{ .ValueType }}) bool
